@@ -311,3 +311,18 @@ example : ∃ m', ipow (K := Rat) (fun A a b m => lincombImpl thrSmall thrMedium
   obtain ⟨m', e, s, _⟩ := C01.ipow_correct (K := Rat) _ (C01.tensor_lincomb_spec 3 false) 0 1 (by decide) 5
     (fun _ i => (i : Rat) + 2)
   exact ⟨m', e, by rw [s]; norm_num⟩
+
+/-! ## Front end of `LinearSpace.lincomb`: malformed calls are rejected before any write -/
+
+/-- `_lincomb` is reached iff every given argument is well-formed: `out` (if given) and `x1`
+in the space, `a` in the field (if the space has one), and either the one-element form with
+no `x2`, or `b` in the field and `x2` in the space. In every other case the outcome is an
+error constructor, i.e. the call returns before `_lincomb` (the only writer) runs. -/
+theorem C01.lincomb_front_rejects (hasField outGiven outIn aIn x1In bGiven x2Given bIn x2In : Bool) :
+    (lincombFront hasField outGiven outIn aIn x1In bGiven x2Given bIn x2In).isError = false ↔
+      ((outGiven = true → outIn = true) ∧ (hasField = true → aIn = true) ∧ x1In = true ∧
+        ((bGiven = false ∧ x2Given = false) ∨
+         (bGiven = true ∧ (hasField = true → bIn = true) ∧ x2In = true))) := by
+  cases hasField <;> cases outGiven <;> cases outIn <;> cases aIn <;> cases x1In <;>
+    cases bGiven <;> cases x2Given <;> cases bIn <;> cases x2In <;>
+    simp [lincombFront, FrontOutcome.isError]
